@@ -290,7 +290,7 @@ func (state inSession) processReject(session *session, msg *Message, rej Message
 	case targetTooHigh:
 
 		var nextState resendState
-		switch currentState := session.State.(type) {
+		switch currentState := unwrapPendingTimeout(session.State).(type) {
 		case resendState:
 			// Assumes target too high reject already sent.
 			nextState = currentState
